@@ -287,7 +287,12 @@ extract_slice_indices (PyObject* index, size_t& start, size_t& end,
     }
     else if (PyInt_Check (index))
     {
-        size_t i = canonical_index (PyInt_AsSsize_t(index), totalLength);
+        //  a Python int that does not fit Py_ssize_t converts to -1 with
+        // an exception set; -1 must not be taken for "the last element"
+        Py_ssize_t pyIndex = PyInt_AsSsize_t(index);
+        if (pyIndex == -1 && PyErr_Occurred())
+            boost::python::throw_error_already_set();
+        size_t i = canonical_index (pyIndex, totalLength);
         start = i;
         end   = i + 1;
         step  = 1;
